@@ -344,7 +344,221 @@ func ruleORD(c *Ctx) []Obligation {
 		}
 		obs = append(obs, o)
 	}
+	obs = append(obs, c.ordFuncProductions()...)
 	return obs
+}
+
+// ordFuncProductions checks the two productions the function printer chooses between:
+//
+//	'declare' Metadata* Header          (ast.FuncDecl: Metadata, Header)
+//	'define'  Header Metadata* Body     (ast.FuncDef:  Header, Metadata, Body)
+//
+// Each branch of the top-level if/else of (*ir.Func).LLString is classified by the keyword
+// literal it writes; within a branch (preceded by the statements before the if) the groups
+// H (header fields and the header helper), M (Metadata) and B (Blocks via the body helper)
+// must appear in the order of the corresponding AST node's accessors.
+func (c *Ctx) ordFuncProductions() []Obligation {
+	var obs []Obligation
+	fn := c.lookupFunc(pkgIR, "Func.LLString")
+	fd := c.funcDecl(fn)
+	if fd == nil {
+		return []Obligation{{Key: "ir.Func productions", Verdict: UNDECIDED, Detail: "(*ir.Func).LLString not found"}}
+	}
+	info := c.pkg(pkgIR).TypesInfo
+	events := c.subjectFields(fn, -1)
+	// a helper that receives the function is the body printer if it reads Blocks, otherwise it prints header parts
+	viaReadsBlocks := map[string]bool{}
+	for _, e := range events {
+		if !e.Direct && e.Field == "Blocks" {
+			viaReadsBlocks[e.Via] = true
+		}
+	}
+	group := func(e fieldEvent) string {
+		if e.Panic {
+			return ""
+		}
+		if !e.Direct {
+			if i := strings.LastIndex(e.Via, "."); i >= 0 && derivedHelpers[e.Via[i+1:]] {
+				return ""
+			}
+			if viaReadsBlocks[e.Via] {
+				return "B"
+			}
+			return "H"
+		}
+		switch e.Field {
+		case "Metadata":
+			return "M"
+		case "Blocks":
+			return "" // the test that chooses the production
+		}
+		return "H"
+	}
+	// enumerate the paths through the printer: every if is taken both ways, consistently per condition
+	type path struct {
+		skip  [][2]token.Pos
+		taken map[string]bool
+	}
+	condKey := func(e ast.Expr) (string, bool) {
+		k := strings.ReplaceAll(exprString(e), " ", "")
+		if strings.HasPrefix(k, "!") {
+			return k[1:], false
+		}
+		return k, true
+	}
+	// local boolean variables defined from a condition stand for that condition
+	alias := map[string]string{}
+	ast.Inspect(fd.Body, func(n ast.Node) bool {
+		if as, ok := n.(*ast.AssignStmt); ok && len(as.Lhs) == 1 && len(as.Rhs) == 1 && as.Tok == token.DEFINE {
+			if b, ok := info.TypeOf(as.Rhs[0]).Underlying().(*types.Basic); ok && b.Kind() == types.Bool {
+				k, _ := condKey(as.Rhs[0])
+				alias[exprString(as.Lhs[0])] = k
+			}
+		}
+		return true
+	})
+	var walk func(list []ast.Stmt, p path) []path
+	walk = func(list []ast.Stmt, p path) []path {
+		for i, st := range list {
+			is, ok := st.(*ast.IfStmt)
+			if !ok {
+				if _, isRet := st.(*ast.ReturnStmt); isRet {
+					// everything after the return in the function is skipped
+					q := p
+					q.skip = append(append([][2]token.Pos{}, p.skip...), [2]token.Pos{st.End(), fd.Body.End()})
+					return []path{q}
+				}
+				continue
+			}
+			key, pos := condKey(is.Cond)
+			if a, ok := alias[key]; ok {
+				key = a
+			}
+			var outs []path
+			for _, takeThen := range []bool{true, false} {
+				truth := takeThen == pos // value of `key`
+				if v, fixed := p.taken[key]; fixed && v != truth {
+					continue
+				}
+				q := path{skip: append([][2]token.Pos{}, p.skip...), taken: map[string]bool{}}
+				for k, v := range p.taken {
+					q.taken[k] = v
+				}
+				q.taken[key] = truth
+				var branch []ast.Stmt
+				if takeThen {
+					branch = is.Body.List
+					if is.Else != nil {
+						q.skip = append(q.skip, [2]token.Pos{is.Else.Pos(), is.Else.End()})
+					}
+				} else {
+					q.skip = append(q.skip, [2]token.Pos{is.Body.Pos(), is.Body.End()})
+					if eb, ok := is.Else.(*ast.BlockStmt); ok {
+						branch = eb.List
+					}
+				}
+				for _, r := range walk(branch, q) {
+					// did the branch return?
+					returned := false
+					for _, sk := range r.skip {
+						if sk[1] == fd.Body.End() && sk[0] >= is.Pos() && sk[0] <= is.End() {
+							returned = true
+						}
+					}
+					if returned {
+						outs = append(outs, r)
+					} else {
+						outs = append(outs, walk(list[i+1:], r)...)
+					}
+				}
+			}
+			return outs
+		}
+		return []path{p}
+	}
+	paths := walk(fd.Body.List, path{taken: map[string]bool{}})
+	want := map[string]string{"declare": "MH", "define": "HMB"}
+	node := map[string]string{"declare": "ast.FuncDecl (Metadata, Header)", "define": "ast.FuncDef (Header, Metadata, Body)"}
+	result := map[string]map[string]token.Pos{} // keyword -> observed order -> position
+	for _, p := range paths {
+		skipped := func(pos token.Pos) bool {
+			for _, sk := range p.skip {
+				if sk[0] <= pos && pos < sk[1] {
+					return true
+				}
+			}
+			return false
+		}
+		kw := ""
+		ast.Inspect(fd.Body, func(n ast.Node) bool {
+			if lit, ok := n.(*ast.BasicLit); ok && kw == "" && lit.Kind == token.STRING && !skipped(lit.Pos()) {
+				if tv := info.Types[lit]; tv.Value != nil {
+					if w := wordRE.FindString(constant.StringVal(tv.Value)); w == "declare" || w == "define" {
+						kw = w
+					}
+				}
+			}
+			return true
+		})
+		if kw == "" {
+			continue
+		}
+		evs := append([]fieldEvent{}, events...)
+		sort.SliceStable(evs, func(i, j int) bool { return evs[i].Pos < evs[j].Pos })
+		var seq []byte
+		var first token.Pos
+		for _, e := range evs {
+			if skipped(e.Pos) {
+				continue
+			}
+			g := group(e)
+			if g == "" {
+				continue
+			}
+			if first == 0 {
+				first = e.Pos
+			}
+			if len(seq) == 0 || seq[len(seq)-1] != g[0] {
+				seq = append(seq, g[0])
+			}
+		}
+		if result[kw] == nil {
+			result[kw] = map[string]token.Pos{}
+		}
+		result[kw][string(seq)] = first
+	}
+	for _, kw := range []string{"declare", "define"} {
+		o := Obligation{Key: "ir.Func print order of production `" + kw + "`", Pos: c.pos(fd.Pos()), Verdict: OK}
+		got := result[kw]
+		if len(got) == 0 {
+			o.Verdict, o.Detail = UNDECIDED, "no path of the printer writes `"+kw+"`"
+			obs = append(obs, o)
+			continue
+		}
+		// optional parts may be absent on a path: every observed order must be a subsequence of the grammar order
+		for order, pos := range got {
+			if !isSubsequence(order, want[kw]) {
+				o.Verdict = VIOL
+				o.Pos = c.pos(pos)
+				o.Detail = fmt.Sprintf("on a path that prints `%s` the parts appear in the order %s (H header, M metadata attachments, B body) but the grammar production %s requires %s: the text is not valid assembly when both parts are present", kw, order, node[kw], want[kw])
+			}
+		}
+		if o.Verdict == OK {
+			o.Detail = fmt.Sprintf("%d path(s), all ⊑ %s as in %s", len(paths), want[kw], node[kw])
+		}
+		obs = append(obs, o)
+	}
+	return obs
+}
+
+func isSubsequence(a, b string) bool {
+	j := 0
+	for i := 0; i < len(b) && j < len(a); i++ {
+		if a[j] == b[i] {
+			j++
+		}
+	}
+	return j == len(a)
 }
 
 // ---------------------------------------------------------------------------
